@@ -56,7 +56,8 @@ class ScriptRunner:
             else:
                 kind = rng.choice(['copy', 'apply', 'apply', 'remove', 'clear', 'slice', 'slice', 'index', 'iadd', 'add', 'add',
                                    'addStr', 'ljust', 'rjust', 'center', 'assign', 'simplify', 'strip', 'removeprefix',
-                                   'removesuffix', 'replace', 'render', 'find'])
+                                   'removesuffix', 'replace', 'render', 'find',
+                                   'zfill', 'clip', 'join', 'fmatch', 'unfmatch', 'splitPiece', 'linePiece', 'partPiece', 'expandtabs'])
             if names and max(len(vars_[k]._s) for k in names) > 200 and kind in ('iadd', 'add', 'addStr', 'replace', 'center', 'ljust', 'rjust'):
                 kind = 'slice'          # bounded work: a slow operation is not a hanging one
             self.stats['ops'][kind] = self.stats['ops'].get(kind, 0) + 1
@@ -133,6 +134,57 @@ class ScriptRunner:
                         else:
                             nw = rng.choice(['', 'x', 'xy', '--'])
                             e = [18, d, v] + P.e_str(old) + [1] + P.e_str(nw) + [count]; fn = lambda: ('set', d, x.replace(old, nw, count))
+                    elif kind == 'zfill':
+                        d = newvar(); n = len(x._s); w = rng.choice([n, n + 1, n + 3, 0])
+                        e = [21, d, v, w]; fn = lambda: ('set', d, x.zfill(w))
+                    elif kind == 'clip':
+                        d = newvar(); a, b = self.bound(x), self.bound(x)
+                        e = [22, d, v] + P.e_optint(a) + P.e_optint(b); fn = lambda: ('set', d, x.clip(a, b))
+                    elif kind == 'join':
+                        d = newvar(); vs = [rng.choice(names) for _ in range(rng.randint(0, 3))]
+                        e = [23, d, len(vs)] + vs
+                        fn = lambda: ('set', d, self.A.join(*[vars_[q] for q in vs]))
+                    elif kind in ('fmatch', 'unfmatch'):
+                        import re as _re
+                        t = x._s
+                        pat = rng.choice([t[:1], t[1:3], 'a', 'b', ' ', '-', 'x']) or 'a'
+                        mc = rng.random() < 0.5; count = rng.choice([-1, -1, 0, 1, 2])
+                        spans = [(m_.start(), m_.end()) for m_ in _re.finditer(_re.escape(pat), t, 0 if mc else _re.IGNORECASE)]
+                        sp = [count, len(spans)] + [q for se in spans for q in se]
+                        if kind == 'fmatch':
+                            a = sarg()
+                            e = [24, v] + P.e_sarg(('tuple', [a])) + sp
+                            fn = lambda: ('none', None, x.format_matching(pat, mk(a), match_case=mc, count=count))
+                        else:
+                            present = sorted(set(str(s_) for p_ in x._fmts.values() for s_ in p_.add))
+                            a = None if rng.random() < 0.4 else (('obj', rng.choice(present)) if present and rng.random() < 0.7 else sarg())
+                            e = [25, v] + P.e_optsarg(None if a is None else ('tuple', [a])) + sp
+                            fn = (lambda: ('none', None, x.unformat_matching(pat, match_case=mc, count=count))) if a is None else \
+                                 (lambda: ('none', None, x.unformat_matching(pat, mk(a), match_case=mc, count=count)))
+                    elif kind in ('splitPiece', 'linePiece', 'partPiece'):
+                        d = newvar(); t = x._s; j = rng.choice([0, 0, 1, 1, 2, 3])
+                        if kind == 'splitPiece':
+                            sep = rng.choice([None, None, t[:1] or None, ' ', '-', '', 'ab'])
+                            m_ = rng.choice([-1, -1, 0, 1]); r_ = rng.random() < 0.4
+                            e = [26, d, v] + P.e_optstr(sep) + [m_] + P.e_bool(r_) + [j]
+                            get = lambda: (x.rsplit(sep, m_) if r_ else x.split(sep, m_))
+                        elif kind == 'linePiece':
+                            k_ = rng.random() < 0.5
+                            e = [27, d, v] + P.e_bool(k_) + [j]
+                            get = lambda: x.splitlines(k_)
+                        else:
+                            sep = rng.choice([t[:1], t[1:2], ' ', '-', 'ab', 'zz']) or 'a'
+                            r_ = rng.random() < 0.4
+                            e = [28, d, v] + P.e_str(sep) + P.e_bool(r_) + [j]
+                            get = lambda: list(x.rpartition(sep) if r_ else x.partition(sep))
+                        def fn():
+                            ps = get()
+                            if j < len(ps):
+                                return ('set', d, ps[j])
+                            return ('unbound', None, None)
+                    elif kind == 'expandtabs':
+                        d = newvar(); k_ = rng.choice([0, 1, 4, 8])
+                        e = [29, d, v, k_]; fn = lambda: ('set', d, x.expandtabs(k_))
                     elif kind == 'render':
                         spec = rng.choice([None, None, '', '>8:red', '*^7', '5', 'x', '<+4:bold'])
                         o, rs, re_ = rng.random() < 0.6, rng.random() < 0.4, rng.random() < 0.7
@@ -153,6 +205,8 @@ class ScriptRunner:
                     oc = 'ok'
                 elif tag == 'none':
                     oc = 'ok'
+                elif tag == 'unbound':
+                    oc = 'unbound'
                 elif tag == 'str':
                     oc = 'str ' + ' '.join(str(t) for t in P.e_str(val))
                 else:
